@@ -9,6 +9,7 @@ import (
 	"encoding/json"
 	"fmt"
 	"os"
+	"reflect"
 	"strconv"
 	"strings"
 )
@@ -206,4 +207,50 @@ func vRunReplay(entries map[string]func()) (outcome string) {
 		return "NOT-REPRODUCED " + vRDiverged
 	}
 	return "NOT-REPRODUCED"
+}
+
+// vMapPutIf(m, key, val, present): natively a plain conditional insert.
+func vMapPutIf(m any, key any, val any, present bool) {
+	if !present {
+		return
+	}
+	mv := reflect.ValueOf(m)
+	var vv reflect.Value
+	if val == nil {
+		vv = reflect.Zero(mv.Type().Elem())
+	} else {
+		vv = reflect.ValueOf(val)
+	}
+	mv.SetMapIndex(reflect.ValueOf(key), vv)
+}
+
+// vJSONFields: "GoName|jsonName|omitempty" per exported field.
+func vJSONFields(v any) []string {
+	t := reflect.TypeOf(v)
+	if t.Kind() == reflect.Ptr {
+		t = t.Elem()
+	}
+	var out []string
+	for i := 0; i < t.NumField(); i++ {
+		f := t.Field(i)
+		if !f.IsExported() {
+			continue
+		}
+		name, omit := f.Name, false
+		tag := f.Tag.Get("json")
+		if tag == "-" {
+			continue
+		}
+		parts := strings.Split(tag, ",")
+		if parts[0] != "" {
+			name = parts[0]
+		}
+		for _, o := range parts[1:] {
+			if o == "omitempty" {
+				omit = true
+			}
+		}
+		out = append(out, fmt.Sprintf("%s|%s|%v", f.Name, name, omit))
+	}
+	return out
 }
